@@ -66,7 +66,7 @@ func judge(r *ev.Recorder, c *triple) (string, string) {
 		return c.Class + "/input-modified", c.Detail + ": Verify/Open modified an input buffer"
 	}
 	if lib {
-		if !bytes.Equal(opened, c.Msg) || (len(c.Msg) > 0 && opened == nil) {
+		if !bytes.Equal(opened, c.Msg) || opened == nil { // nil is Open's answer for "invalid", also for an empty message
 			return c.Class + "/open-disagrees", fmt.Sprintf("%s: Verify is true but Open returned %d bytes (message has %d)", c.Detail, len(opened), len(c.Msg))
 		}
 	} else if len(opened) != 0 {
@@ -203,11 +203,11 @@ func pool(r *ev.Recorder, n int) []keyEnt {
 }
 
 var craftKinds = []string{"valid", "valid-ref-signed", "dishonest-z", "dishonest-z", "dishonest-r0", "dishonest-challenge-byte", "dishonest-challenge-byte", "hint-after-255", "hint-swap", "hint-duplicate", "hint-padding", "hint-padding-pair", "hint-count-over", "hint-count-decreasing", "hint-count-into-padding", "hint-count-chain",
-	"other-message", "other-key", "z-set-extreme", "garbage", "garbage-keep-hints", "challenge-last-byte"}
+	"other-message", "other-key", "z-set-extreme", "garbage", "garbage-keep-hints", "challenge-last-byte", "challenge-seed-hungry"}
 
 func TestCrafted(t *testing.T) {
 	r := ev.New(t, prop, "TestCrafted")
-	r.Rule("rapid draws a key (pool of 4), a message and ONE crafted class: signatures from a DISHONEST reference signer holding the secret key that skips exactly one signing-side check (z-norm: everything the verifier recomputes matches, only the norm check can stop it; r0; hint count) or transmits a challenge differing in one byte from the honest one while using it consistently (only the final challenge comparison can stop it - every byte position is drawn), hint-encoding surgery that preserves the decoded hint set (swap, duplicate, non-zero padding, counts over 75 / decreasing / reaching into the padding), other message / key, a z coefficient forced to +-(gamma1-beta-1), +-(gamma1-beta), -gamma1+1, gamma1, garbage; oracle Verify_lib == Verify_spec, a-priori reject, Open consistent; non-trivial = passes all verifier-side conditions but one, or differs from a valid signature by one edit; distinct by (class, key, message, position)")
+	r.Rule("rapid draws a key (pool of 4), a message and ONE crafted class: signatures from a DISHONEST reference signer holding the secret key that skips exactly one signing-side check (z-norm: everything the verifier recomputes matches, only the norm check can stop it; r0; hint count) or transmits a challenge differing in one byte from the honest one while using it consistently (only the final challenge comparison can stop it - every byte position is drawn), hint-encoding surgery that preserves the decoded hint set (swap, duplicate, non-zero padding, counts over 75 / decreasing / reaching into the padding), other message / key, a challenge seed whose expansion consumes 97..102 stream bytes, a z coefficient forced to +-(gamma1-beta-1), +-(gamma1-beta), -gamma1+1, gamma1, garbage; oracle Verify_lib == Verify_spec, a-priori reject, Open consistent; non-trivial = passes all verifier-side conditions but one, or differs from a valid signature by one edit; distinct by (class, key, message, position)")
 	ks := pool(r, 4)
 	checks := r.PerShard(r.Pick(3200, 80000))
 	r.Rapid(t, "craft", checks, func(rt *rapid.T) {
@@ -403,6 +403,14 @@ func TestCrafted(t *testing.T) {
 			copy(g[offHint:], s[offHint:])
 			c.Sig = g
 			c.Expect = "agree"
+		case "challenge-seed-hungry":
+			// the challenge seed replaced by one whose expansion consumes unusually many stream bytes
+			s := honest()
+			o := append([]byte{}, s...)
+			cs, nb := pu.HungryChallengeSeed(rapid.IntRange(0, len(pu.HungryChallengeSeeds)-1).Draw(rt, "which"))
+			copy(o, cs)
+			c.Sig = o
+			detail = fmt.Sprintf("c~ := a seed whose expansion consumes %d stream bytes", nb)
 		case "challenge-last-byte":
 			// a signature whose challenge differs from the honest one only in its last byte
 			s := honest()
